@@ -106,6 +106,18 @@ def param_index(body, n):
     return None
 
 
+def resolve_local(body, n, depth=6):
+    """follow immutable `let x = <expr>;` bindings to the expression they name."""
+    n = strip(n)
+    while depth > 0 and n.get("k") == "Local":
+        init = body.local_init(n["id"])
+        if init is None:
+            break
+        n = strip(init)
+        depth -= 1
+    return n
+
+
 def ctor_name(n):
     """path of the tuple-struct / variant constructor a Call applies, else None."""
     if n.get("k") != "Call":
@@ -270,7 +282,7 @@ class Logic:
         return ("opaque", body.path + "|" + body.canon(n, 4))
 
     # -- boolean expressions ---------------------------------------------------------------
-    def boolf(self, body, n, depth=8):
+    def boolf(self, body, n, depth=24):
         if depth <= 0:
             return self.opaque(body, n)
         n = strip(n)
@@ -384,7 +396,7 @@ class Logic:
         return T
 
     # -- "this Option is Some" -------------------------------------------------------------
-    def somef(self, body, n, depth=8):
+    def somef(self, body, n, depth=24):
         if depth <= 0:
             return self.opaque(body, n)
         n = strip(n)
@@ -1030,7 +1042,7 @@ def check_site(rep, cx, body, node, cid, what, only_if_core, seen):
     return ok
 
 
-@RULES.rule("R14.3", "every emission site of a gated construct is guarded by a flag that implies its stabilisation", floor=40)
+@RULES.rule("R14.3", "every emission site of a gated construct is guarded by a flag that implies its stabilisation", floor=47)
 def r14_3(rep):
     """Necessary: replacing `if compile_time { quote!{ offset_of!(..) } }` by an unconditional emission (or guarding
     it with `const_cstr`, 1.59) makes `--rust-target 1.70` bindings of any struct use `offset_of!`, which 1.70 rejects;
@@ -1273,7 +1285,7 @@ def origin_is_gate(cx, body, loc, depth=2):
 # ---------------------------------------------------------------------------------------------
 # R14.4 — edition validation, synchronisation, defaults
 # ---------------------------------------------------------------------------------------------
-@RULES.rule("R14.4", "edition validated before the table is consulted; defaults are the newest known release / edition", floor=18)
+@RULES.rule("R14.4", "edition validated before the table is consulted; defaults are the newest known release / edition", floor=29)
 def r14_4(rep):
     """Necessary: without the `!edition.is_available(target)` early return, `--rust-target 1.70 --rust-edition 2024`
     produces bindings instead of `UnsupportedEdition`; with `RustTarget::default()` returning `EARLIEST_STABLE_RUST`
@@ -1286,7 +1298,7 @@ def r14_4(rep):
     rep.check(bool(news or latest), "generate:computes-features", "Builder::generate calls RustFeatures::new*", gen.loc(gen.root))
 
     def is_target(n):
-        n = strip(n)
+        n = resolve_local(gen, n)
         return n.get("k") == "Field" and n.get("adt") == OPT and n["f"] == "rust_target" and "param:self" in gen.canon(n)
 
     for c in news:
